@@ -21,7 +21,7 @@ var (
 	windows = []rf{{time.Minute, time.Second}, {time.Minute, 30 * time.Second}, {10 * time.Minute, 10 * time.Second}, {time.Hour, time.Minute}, {24 * time.Hour, time.Minute},
 		// windows that do not divide 24 h (the window grid is anchored at Go's zero time, not at the Unix epoch or at midnight)
 		{7 * time.Hour, 10 * time.Minute}, {168 * time.Hour, time.Hour}}
-	weights = [][]float64{nil, {1}, {1, 2}, {2, 1, 0.5}, {0, 1}, {1, 1, 1, 1, 1, 1, 1}}
+	weights = [][]float64{nil, {1}, {2}, {0.25}, {1, 2}, {2, 1, 0.5}, {0, 1}, {1, 1, 1, 1, 1, 1, 1}}
 )
 
 func pdf(x, mu, sigma float64) float64 {
